@@ -147,16 +147,19 @@ Proof.
 Qed.
 
 (* `frame_bytes`: ns the entries the archive was written from (writable: C14), b' what the command writes.
-   (nf = 0 -> no name is selected: without patterns chmod / chown / xattr / acl return before touching the archive) *)
-Theorem frame_bytes expand rebuild keep pw c nf sl ns b' :
-  Forall writable_normal ns -> c <> Transform.CDelete -> (nf = 0 -> forall n, sl n = false) ->
-  run_edit hdr_tok content_tok expand rebuild keep pw c nf sl (write_raw_archive 0 (map ser_normal ns)) = Ok b' ->
+   (nf = 0 -> no name is selected: without patterns chmod / chown / xattr / acl return before touching the archive).
+   The selection is the one the command works with (Transform.eff_sel c nf sl): the patterns', but for strip without
+   FILES every entry; so an entry `strip FILES` does not select is written with the identical chunk list *)
+Theorem frame_bytes expand rebuild keep pw c nf sl0 ns b' :
+  Forall writable_normal ns -> c <> Transform.CDelete -> (nf = 0 -> forall n, sl0 n = false) ->
+  run_edit hdr_tok content_tok expand rebuild keep pw c nf sl0 (write_raw_archive 0 (map ser_normal ns)) = Ok b' ->
+  let sl := Transform.eff_sel c nf sl0 in
   exists ns', b' = write_raw_archive 0 (map ser_normal ns') /\ length ns' = length ns /\
     Forall2 (edit_rel c sl) (map normalize ns) ns' /\ Forall2 (frame_rel c sl) ns ns' /\
     (cmd_ok c -> Forall writable_normal ns') /\
     (Forall writable_normal ns' -> wf_archive b' = true /\ read_archive b' = Ok (map RNormal ns')).
 Proof.
-  intros W NE NF H. destruct (written_normals_read ns W) as (WA & RA).
+  intros W NE NF H sl. destruct (written_normals_read ns W) as (WA & RA).
   pose proof (wf_read_writable _ _ WA RA) as Wm.
   assert (Wm' : Forall writable_normal (map normalize ns)).
   { apply Forall_forall. intros m Hm. rewrite Forall_forall in Wm. exact (Wm (RNormal m) (in_map _ _ _ Hm)). }
@@ -176,15 +179,44 @@ Proof.
       by (rewrite ser_normals_normalize; reflexivity).
     exists (map normalize ns). rewrite Eb. split; [reflexivity|]. apply FIN.
     assert (U : forall m, TransformFacts.touched sl c (lview m) = false).
-    { intros m. unfold TransformFacts.touched. rewrite (NF Z). destruct c; try discriminate NFc; reflexivity. }
+    { intros m. unfold TransformFacts.touched, sl. rewrite (TransformFacts.eff_sel_needs_files c nf sl0 NFc), (NF Z).
+      destruct c; try discriminate NFc; reflexivity. }
     clear -U. induction (map normalize ns) as [|m ms IH]; constructor; [apply edit_rel_refl; apply U|exact IH].
   - change (read_all (write_raw_archive 0 (map ser_normal ns))) with (read_archive (write_raw_archive 0 (map ser_normal ns))) in H.
-    rewrite RA in H. cbn [bind] in H.
+    rewrite RA in H. cbn [bind] in H. fold sl in H.
     destruct (edit_archive hdr_tok content_tok expand rebuild keep pw c sl (map RNormal (map normalize ns))) as [es'| |] eqn:EA;
       cbn [bind] in H; try discriminate H. injection H as <-.
     destruct (edit_normals_rel expand rebuild keep pw c sl NE _ _ EA) as (ns' & -> & R).
     assert (EQ : map ser_entry (map RNormal ns') = map ser_normal ns') by (rewrite map_map; reflexivity).
     exists ns'. rewrite EQ. split; [reflexivity|]. exact (FIN ns' R).
+Qed.
+
+(* `pna strip ARCHIVE FILES...` (4d97c0da), on bytes: an entry whose name the patterns do not select is written with
+   the identical chunk list; a selected one keeps header, PHSF, data chunks and sizes and is stripped; the output is
+   well-formed.  (Before the repair FILES were ignored: TransformFacts.strip_ignored_patterns_unrepaired.) *)
+Corollary frame_bytes_strip_patterns expand rebuild keep pw o nf sl ns b' :
+  Forall writable_normal ns -> nf <> 0 ->
+  run_edit hdr_tok content_tok expand rebuild keep pw (Transform.CStrip o) nf sl (write_raw_archive 0 (map ser_normal ns)) = Ok b' ->
+  exists ns', b' = write_raw_archive 0 (map ser_normal ns') /\ length ns' = length ns /\
+    Forall2 (fun n n' =>
+      n_hdr n' = n_hdr n /\ n_phsf n' = n_phsf n /\ n_data n' = n_data (normalize n) /\
+      (sl (f_name (n_hdr n)) = false -> ser_normal n' = ser_normal n) /\
+      (sl (f_name (n_hdr n)) = true -> lview n' = Transform.cmd_strip o (lview (normalize n)))) ns ns' /\
+    Forall writable_normal ns' /\ wf_archive b' = true /\ read_archive b' = Ok (map RNormal ns').
+Proof.
+  intros W NZ H.
+  destruct (frame_bytes expand rebuild keep pw (Transform.CStrip o) nf sl ns b' W ltac:(discriminate)
+              ltac:(intros Z; contradiction (NZ Z)) H) as (ns' & Eb & L & _ & FR & K1 & K2).
+  exists ns'. split; [exact Eb|]. split; [exact L|]. pose proof (K1 I) as W'. destruct (K2 W') as (WA' & RA').
+  split; [|split; [exact W'|split; [exact WA'|exact RA']]].
+  apply N.eqb_neq in NZ. clear -FR NZ. induction FR as [|n n' ns ns' [(H1 & H2 & H3 & _ & _ & _ & SR & _) FU] _ IH]; constructor; [|exact IH].
+  split; [exact H1|]. split; [exact H2|]. split; [exact H3|].
+  assert (TE : TransformFacts.touched (Transform.eff_sel (Transform.CStrip o) nf sl) (Transform.CStrip o) (lview (normalize n))
+               = sl (f_name (n_hdr n))).
+  { rewrite TransformFacts.touched_strip, NZ. reflexivity. }
+  split.
+  - intros S. apply FU. rewrite TE. exact S.
+  - intros S. unfold TransformFacts.step_rel in SR. rewrite TE, S in SR. cbn [Transform.cmd_entry] in SR. congruence.
 Qed.
 
 (* the entries the command writes are writable again: a theorem for chmod, chown, xattr, strip (cmd_ok: C14_edit_entry_writable);
@@ -217,7 +249,7 @@ Qed.
 
 (* running the same command on its own output writes the same FILE again *)
 Theorem idem_bytes expand rebuild keep pw c nf sl ns b' :
-  out_ok c sl ns -> (forall n', TransformFacts.entry_idem c (lview n')) ->
+  out_ok c (Transform.eff_sel c nf sl) ns -> (forall n', TransformFacts.entry_idem c (lview n')) ->
   Forall writable_normal ns -> c <> Transform.CDelete -> (nf = 0 -> forall n, sl n = false) ->
   run_edit hdr_tok content_tok expand rebuild keep pw c nf sl (write_raw_archive 0 (map ser_normal ns)) = Ok b' ->
   run_edit hdr_tok content_tok expand rebuild keep pw c nf sl b' = Ok b'.
@@ -229,7 +261,7 @@ Proof.
   rewrite RA'. cbn [bind]. rewrite edit_normals_fixpoint.
   - cbn [bind]. rewrite map_map. reflexivity.
   - clear -R ID. induction R as [|m n' ms ns' Hr _ IH]; constructor; [|exact IH].
-    exact (edit_rel_fixpoint c sl m n' (ID _) Hr).
+    exact (edit_rel_fixpoint c _ m n' (ID _) Hr).
 Qed.
 
 Corollary idem_bytes_acl_free expand rebuild keep pw c nf sl ns b' :
@@ -242,7 +274,7 @@ Proof. intros CO AF. apply idem_bytes; [left; exact CO|]. intros l. apply Transf
 (* acl set / migrate: under the read-back premise of C10_idempotent_acl_partial (it cannot be dropped: known finding
    acl-modify-remove-same) and writable output *)
 Corollary idem_bytes_acl_partial expand rebuild keep pw c nf sl ns b' :
-  out_ok c sl ns -> (forall n', TransformFacts.acl_reads_back c (lview n')) ->
+  out_ok c (Transform.eff_sel c nf sl) ns -> (forall n', TransformFacts.acl_reads_back c (lview n')) ->
   Forall writable_normal ns -> c <> Transform.CDelete -> (nf = 0 -> forall n, sl n = false) ->
   run_edit hdr_tok content_tok expand rebuild keep pw c nf sl (write_raw_archive 0 (map ser_normal ns)) = Ok b' ->
   run_edit hdr_tok content_tok expand rebuild keep pw c nf sl b' = Ok b'.
@@ -303,10 +335,10 @@ Qed.
 (* `edit_logical`: the six per-entry editors on a solid-free written archive, decoded: no cipher or compressor law
    is needed — the data chunks of the output are those of the input *)
 Theorem edit_logical expand rebuild keep pwb c nf sl ns b' old :
-  out_ok c sl ns -> Forall writable_normal ns -> c <> Transform.CDelete -> (nf = 0 -> forall n, sl n = false) ->
+  out_ok c (Transform.eff_sel c nf sl) ns -> Forall writable_normal ns -> c <> Transform.CDelete -> (nf = 0 -> forall n, sl n = false) ->
   run_edit hdr_tok content_tok expand rebuild keep pwb c nf sl (write_raw_archive 0 (map ser_normal ns)) = Ok b' ->
   xlogical (write_raw_archive 0 (map ser_normal ns)) = Ok old -> Forall reads_both (map normalize ns) ->
-  exists ns' new, b' = write_raw_archive 0 (map ser_normal ns') /\ Forall2 (edit_rel c sl) (map normalize ns) ns' /\
+  exists ns' new, b' = write_raw_archive 0 (map ser_normal ns') /\ Forall2 (edit_rel c (Transform.eff_sel c nf sl)) (map normalize ns) ns' /\
     xlogical b' = Ok new /\ Forall2 same_content old new /\
     Forall2 (fun n' x' => x' = xentry_of_normal (e_data x') n') ns' new.
 Proof.
@@ -314,7 +346,7 @@ Proof.
   assert (W' : Forall writable_normal ns') by (destruct CO as [CO|CO]; [exact (K1 CO)|exact (CO ns' R)]).
   destruct (K2 W') as (WA' & RA'). destruct (written_normals_read ns W) as (_ & RA).
   unfold AppendContainerFacts.xlogical in XL. rewrite RA in XL. cbn [bind] in XL. apply x_items_normals_inv in XL.
-  destruct (edit_rel_read_all c sl _ ns' old R RB XL) as (new & Rn & SC & At).
+  destruct (edit_rel_read_all c _ _ ns' old R RB XL) as (new & Rn & SC & At).
   exists ns', new. split; [reflexivity|]. split; [exact R|]. split; [|split; assumption].
   unfold AppendContainerFacts.xlogical. rewrite RA'. cbn [bind]. apply (x_items_normals E D decompress verify). exact Rn.
 Qed.
@@ -482,16 +514,16 @@ Theorem edit_solid_logical c nf sl b es old b' :
   (forall ns, flat_p es = Ok ns -> Forall reads_any ns) -> xlogical b = Ok old ->
   run_edit hdr_tok content_tok expand_p rebuild_p keep pwb c nf sl b = Ok b' ->
   exists es' ns ns' new, b' = write_raw_archive 0 (map ser_entry es') /\ Forall writable es' /\ wf_archive b' = true /\
-    flat_p es = Ok ns /\ Forall2 (edit_rel c sl) ns ns' /\ Forall2 same_content old new /\ Forall2 attrs_of ns' new /\
+    flat_p es = Ok ns /\ Forall2 (edit_rel c (Transform.eff_sel c nf sl)) ns ns' /\ Forall2 same_content old new /\ Forall2 attrs_of ns' new /\
     (Forall srb_drains es' -> xlogical b' = Ok new).
 Proof.
   intros CO NE SC WA RA B RB XL H. pose proof (wf_read_writable b es WA RA) as W.
   unfold AppendContainerFacts.xlogical in XL. rewrite RA in XL. cbn [bind] in XL.
   destruct (x_flat E D decompress verify pw rb srb es old XL) as (ns & F & R).
   unfold run_edit in H. rewrite SC in H. change (read_all b) with (read_archive b) in H. rewrite RA in H. cbn [bind] in H.
-  destruct (edit_archive hdr_tok content_tok expand_p rebuild_p keep pwb c sl es) as [es'| |] eqn:EA; cbn [bind] in H; try discriminate H.
+  destruct (edit_archive hdr_tok content_tok expand_p rebuild_p keep pwb c (Transform.eff_sel c nf sl) es) as [es'| |] eqn:EA; cbn [bind] in H; try discriminate H.
   injection H as <-.
-  destruct (edit_archive_logical c sl CO NE es es' ns old W B EA F (RB ns F) R) as (W' & ns' & new & Rr & SCn & At & X).
+  destruct (edit_archive_logical c _ CO NE es es' ns old W B EA F (RB ns F) R) as (W' & ns' & new & Rr & SCn & At & X).
   destruct (written_reads es' W') as (WA' & RA').
   exists es', ns, ns', new. split; [reflexivity|]. split; [exact W'|]. split; [exact WA'|]. split; [exact F|].
   split; [exact Rr|]. split; [exact SCn|]. split; [exact At|].
